@@ -393,6 +393,25 @@ pub fn every_member_count_space(max: usize) -> TargetSpace {
     })
 }
 
+/// Compounds of every total size 28, 32 ... 4 * `max_words` bytes made of three unremarkable members (an APP and an
+/// unknown packet that share the slack in a proportion that moves with the size, and a BYE), flat or with the first
+/// two in a nested compound.
+pub fn every_total_size_space(max_words: usize) -> TargetSpace {
+    TargetSpace::new("compound-every-total-size", (max_words as u64 - 6) * 2, false, move |idx| {
+        use Member::*;
+        let w = (idx / 2) as usize + 7;
+        let slack = w - 2 - 3 - 1; // beyond the BYE (2 words), the APP's fixed part (3) and the unknown header (1)
+        let x = slack * (w % 7) / 6; // APP payload words: 0..=slack (w % 7 == 6 gives it all)
+        let y = slack - x.min(slack);
+        let x = x.min(slack);
+        let app = Plain(Pkt::App { ssrc: 0x0A0B_0C0D, subtype: (w % 32) as u8, name: "totl".into(), data: (0..x * 4).map(|i| (i as u8).wrapping_mul(7) | 1).collect(), pad: 0 });
+        let unk = Plain(Pkt::Unknown { pt: 209, count: (w % 31) as u8, data: (0..y * 4).map(|i| (i as u8).wrapping_mul(11) | 1).collect(), pad: 0 });
+        let bye = Plain(Pkt::Bye { ssrcs: vec![w as u32], reason: String::new(), pad: 0 });
+        let ms = if idx % 2 == 0 { vec![app, unk, bye] } else { vec![Nested(vec![unk, app]), bye] };
+        Target::Compound(ms)
+    })
+}
+
 pub fn compound_space(depth: u32) -> TargetSpace {
     let menu = member_menu();
     let k = menu.len() as u64;
@@ -477,6 +496,7 @@ pub fn all_target_spaces(tier: Tier, seed: u64) -> Vec<TargetSpace> {
     v.push(compound_space(tier.pick(3, 4)));
     v.push(many_member_space());
     v.push(every_member_count_space(tier.pick(450, 1200)));
+    v.push(every_total_size_space(tier.pick(1200, 4096)));
     v.push(ext_space());
     v
 }
